@@ -287,6 +287,20 @@ func (ps *PairShuffle) Verify(
 		return err
 	}
 
+	// The simple shuffle read from the proof must be the one over the
+	// vectors (A + lambda*B, C + lambda*D) of this pair shuffle:
+	// a simple shuffle of unrelated vectors proves nothing about X, Y.
+	for i := range k {
+		P := grp.Point().Mul(v4.Zlambda, B[i])
+		if !P.Add(P, p1.A[i]).Equal(ps.pv6.p0.X[i]) {
+			return errors.New("invalid PairShuffleProof")
+		}
+		P = grp.Point().Mul(v4.Zlambda, p3.D[i])
+		if !P.Add(P, p1.C[i]).Equal(ps.pv6.p0.Y[i]) {
+			return errors.New("invalid PairShuffleProof")
+		}
+	}
+
 	// V step 7
 	Phi1 := grp.Point().Null()
 	Phi2 := grp.Point().Null()
